@@ -13,7 +13,7 @@ base = sys.argv[2] if len(sys.argv) > 2 else "HEAD"
 rc, out = sh("git -C /repo worktree add --detach %s %s" % (wt, base))
 assert rc == 0, out
 res = []
-for name, subject in json.load(open(os.path.join(V, "tools", "fix_order.json"))):
+for name, subject in json.load(open(os.path.join(V, "tools", os.environ.get("FIX_ORDER", "fix_order.json")))):
     d = os.path.join(V, "proposed_fixes", name + ".diff")
     if not os.path.exists(d):
         res.append((name, "NO FILE")); continue
